@@ -92,13 +92,14 @@ Definition grid_step (G : grids) (o : grid_op) : grids :=
 
 (* ---------------- numpy arrays of rank 0, 1, 2 and squeeze ---------------- *)
 Inductive arr := A0 (x : Qc) | A1 (v : qv) | A2 (m : qm).            (* A2: list of rows (first axis) *)
+(* observe() after /repo 64a5926 + its follow-up: for a single observation time the TIME axis (the last one, length 1) of a
+   2-d result is dropped -- `solution_obs.squeeze(axis=-1)` under the guard `ndim > 1 and shape[-1] == 1`; rank-0/1 results
+   and 2-d results whose last axis is not 1 are left as they are, a space axis of length 1 is never dropped.  (Before the
+   repair: `squeeze()` of every axis of length 1, which turned one observed node into a 0-d value.) *)
 Definition squeeze (a : arr) : arr :=
   match a with
   | A0 x => A0 x
-  | A1 [x] => A0 x
   | A1 v => A1 v
-  | A2 [[x]] => A0 x
-  | A2 [r] => A1 r
   | A2 m => if forallb (fun r => (length r =? 1)%nat) m then A1 (map (fun r => hd 0%Qc r) m) else A2 m
   end.
 
@@ -302,7 +303,8 @@ Definition td_observe (G : grids) (times tobs : qv) (levels : list qv) : res (bo
   | Er e => Er e
   | Ok a => match apply_obsmap obsmap a with
             | Er e => Er e
-            | Ok b => Ok (negb restr, if (length tobs =? 1)%nat then squeeze b else b)
+            | Ok b => Ok (negb restr, if g_eq G && time_test times tobs then b       (* solution[..., -1]: no time axis left *)
+                                      else if (length tobs =? 1)%nat then squeeze b else b)
             end
   end.
 
